@@ -20,8 +20,10 @@ def P(n, families, **kw):
 
 PROPS = {
     "C01": P(1, ["C01"]),
-    "C02": P(2, ["C02"], extra_modules=["ZtypV.Props.C02b"],
-        assumptions=["t.wf, hasType t v, View.inRange t (every subtree depth < 64: all lengths/limits <= 2^62)", "(serialize t v).length < 2^32 for Serialize of types with offsets (WriteOffset panics beyond)",
+    "C02": P(2, ["C02", "C02c"], extra_modules=["ZtypV.Props.C02b", "ZtypV.Props.C02c"],
+        assumptions=["api.* ops (family C02c: type-definition accessors, CheckIndex, FieldValues, the As* casts, Uint256 Bytes32/SetBytes32/MustUint256, DecodingReader.ReadUint32/Skip): CORR model = Go; PROP from Spec and plain integers (perNode = 32/size, bottom nodes = ceil, translateIndex = (i/per, i%per), CheckIndex nil iff i < len, FieldValues = the fields = Get(i), a cast succeeds iff the SSZ type matches, Bytes32 = leBytes 32 n, api.read = the flat-stream answer); "
+                     "accessor theorems under no-wrap hypotheses (limit + perNode - 1 < 2^64, bitfields n + 255 < 2^64; the wrapped value is characterised too), Skip counts < 2^63",
+                     "t.wf, hasType t v, View.inRange t (every subtree depth < 64: all lengths/limits <= 2^62)", "(serialize t v).length < 2^32 for Serialize of types with offsets (WriteOffset panics beyond)",
                      "round trip fully discharged (C02_decode_complete, C02_roundtrip_total in Props/C02b.lean)"]),
     "C03": P(3, ["C03"]),
     "C04": P(4, ["C04"], stateful=True,
